@@ -11,10 +11,9 @@ RULE = (
     "case = backend x history of 1..30 operations over a pool of 4 bucket ids (ASCII, unicode, ids with quotes/%/spaces): create (only non-live ids; non-empty "
     "type/client/hostname; created at any UTC offset; name given or omitted; nested data or omitted), update (non-empty subset of type_id/client/hostname/name/data, "
     "all non-empty), delete, event writes, and lookups ds[id] / metadata() through fresh and STALE handles (kept from before a delete); about a quarter of "
-    "lookups/updates/deletes target a non-live id. Oracle: dict model id -> metadata + events; after every step buckets() has exactly the model's keys and per "
+    "lookups/updates/deletes target a non-live id. Oracle: dict model id -> metadata + events; after every step flagged for checking (about half, and always the last; unflagged steps run without any read in between, so buffered writes stay buffered) buckets() has exactly the model's keys and per "
     "bucket equal id/type/client/hostname, created equal as an instant, name equal when one was given or set, data equal ({} when omitted), events equal as a "
-    "multiset; new and re-created buckets are empty; non-live id: ds[id] raises KeyError, stale metadata()/update/delete raise ValueError, and the whole dump is "
-    "unchanged. Non-trivial = the history re-creates a previously deleted id that had events, or uses a stale handle."
+    "multiset; new and re-created buckets are empty; non-live id: ds[id] raises KeyError, stale metadata()/update/delete raise ValueError, and the store still equals the model (nothing changed, buffered writes included). Non-trivial = the history re-creates a previously deleted id that had events, or uses a stale handle."
 )
 ASSUMPTIONS = [
     "creating an id that is already live is not generated (backends differ and the property is silent)",
@@ -40,7 +39,7 @@ def strategy(draw, tier="quick"):
     shift = draw(st.integers(0, 3))
     for _ in range(draw(st.integers(1, 30))):
         kind = draw(st.sampled_from(["create", "create", "create", "update", "update", "delete", "delete", "write", "write", "write", "lookup", "stale", "stale", "describe"]))
-        op = {"op": kind, "b": (draw(st.integers(0, npool - 1)) + shift) % 4, "nonlive": draw(st.integers(0, 3)) == 0}
+        op = {"op": kind, "b": (draw(st.integers(0, npool - 1)) + shift) % 4, "nonlive": draw(st.integers(0, 3)) == 0, "chk": draw(st.booleans())}
         if kind == "create":
             op.update(
                 type=draw(st.sampled_from(TXT)),
@@ -123,7 +122,6 @@ def run_case(case):
                 if not live or op["nonlive"]:
                     target = bid if not live else "never-" + bid
                     flags["nonlive"] += 1
-                    before = _dump(ds)
                     try:
                         ds.update_bucket(target, **json.loads(json.dumps(op["fields"])))
                     except ValueError:
@@ -132,8 +130,6 @@ def run_case(case):
                         raise Violation(f"{where}: updating a non-existent bucket raised {type(ex).__name__}: {ex} instead of ValueError")
                     else:
                         raise Violation(f"{where}: updating a non-existent bucket {target!r} did not raise")
-                    if _dump(ds) != before:
-                        raise Violation(f"{where}: a rejected update changed the store")
                 else:
                     with sut(where):
                         ds.update_bucket(bid, **json.loads(json.dumps(op["fields"])))
@@ -143,7 +139,6 @@ def run_case(case):
                 if not live or op["nonlive"]:
                     target = bid if not live else "never-" + bid
                     flags["nonlive"] += 1
-                    before = _dump(ds)
                     try:
                         ds.delete_bucket(target)
                     except ValueError:
@@ -152,8 +147,6 @@ def run_case(case):
                         raise Violation(f"{where}: deleting a non-existent bucket raised {type(ex).__name__}: {ex} instead of ValueError")
                     else:
                         raise Violation(f"{where}: deleting a non-existent bucket {target!r} did not raise")
-                    if _dump(ds) != before:
-                        raise Violation(f"{where}: a rejected delete changed the store")
                 else:
                     with sut(where):
                         ds.delete_bucket(bid)
@@ -195,7 +188,6 @@ def run_case(case):
                         raise Violation(f"{where}: metadata() through a kept handle describes {md.get('id')!r}")
                 else:
                     flags["stale_used"] += 1
-                    before = _dump(ds)
                     try:
                         h.metadata()
                     except ValueError:
@@ -204,9 +196,10 @@ def run_case(case):
                         raise Violation(f"{where}: metadata() of a deleted bucket raised {type(ex).__name__}: {ex} instead of ValueError")
                     else:
                         raise Violation(f"{where}: metadata() through a stale handle of a deleted bucket did not raise")
-                    if _dump(ds) != before:
-                        raise Violation(f"{where}: describing a deleted bucket changed the store")
-            # ---- compare with the model after every step
+            # ---- compare with the model (reads force a commit on the SQLite store, so not after every step:
+            #      a rejected operation must also leave *buffered* writes alone)
+            if not op.get("chk", True) and step != len(case["ops"]) - 1:
+                continue
             got = _dump(ds)
             if set(got) != set(model):
                 raise Violation(f"{where}: listed buckets {sorted(got)} != model {sorted(model)}")
